@@ -12,7 +12,7 @@ def _tiers():
     import os
     th = json.load(open('/verif/tools/tier_numbers.json')) if os.path.exists('/verif/tools/tier_numbers.json') else {}
     rows = ["**Tiers as measured** (this sandbox, 16 cores, warm build caches; states = cases whose every step ran on the implementation, "
-            "transitions = implementation steps / probes judged; quick from the committed evidence files, thorough from the last full sweep):\n\n",
+            "transitions = implementation steps / probes judged; quick from the committed evidence files - measured uncached while the thorough sweep was running on the same machine, so roughly twice their idle wall time: a fresh-copy run of all 19 quick checks took 13 minutes in total - thorough from the last full sweep; C07's thorough tier peaks at about 11 GB of memory, C16's at about 32 GB):\n\n",
             "| check | quick states | quick transitions | quick wall | thorough states | thorough transitions | thorough wall |\n|---|---|---|---|---|---|---|\n"]
     for i in range(1, 20):
         c = "C%02d" % i
